@@ -31,6 +31,9 @@ inductive Detail where
   | leaf (t : Text)
   | node (kvs : List (Text × Detail))
   | list (items : List Detail)
+  /-- a scalar that is not a string (int, float, bool): its `str()` text and whether Python counts it as false
+      (0, 0.0, False) -/
+  | scalar (t : Text) (falsy : Bool)
   deriving Repr, Inhabited
 
 /-- the attributes of a raised `Fault` instance that travel -/
@@ -117,6 +120,18 @@ inductive Level where
   | application | service
   deriving Repr, DecidableEq
 
+/-- the test `dict_to_etree` uses to write an empty element for a value -/
+inductive EmptyTest where
+  | isNone   -- `if v is None`: only None                                                     (good)
+  | falsy    -- `if not v`: 0, 0.0 and False are lost as well
+  deriving Repr, DecidableEq
+
+/-- the built-in error classes of spyne/error.py (their constructors choose the fault code) -/
+inductive Builtin where
+  | invalidCredentials | requestTooLong | requestNotAllowed | argumentError | invalidInput | missingField
+  | validationError | internalError | resourceNotFound | respawn | resourceAlreadyExists
+  deriving Repr, DecidableEq
+
 /-- the protocol object that decides the HTTP status of a fault -/
 inductive StatusAsker where
   | requestProtocol      -- `p_ctx.out_protocol`: the protocol that writes the response       (good)
@@ -153,6 +168,10 @@ structure Facts09 where
   statusAsker : StatusAsker
   /-- the transport ignores an exception that propagates out of the auxiliary methods' processing -/
   auxGuarded : Bool
+  emptyTest : EmptyTest
+  /-- the built-in classes whose constructor takes the fault code from `self.CODE` (so that a subclass that
+      overrides CODE with a more specific sub-code is raised with that code) -/
+  ctorUsesCode : List Builtin
   deriving Repr
 
 /-! ## status (fault_to_http_response_code) -/
@@ -213,6 +232,7 @@ inductive Doc where
   | null
   | str (t : Text)
   | int (n : Int)
+  | scalar (t : Text) (falsy : Bool)
   | map (kvs : List (Text × Doc))
   | list (xs : List Doc)
   deriving Repr, Inhabited
@@ -231,26 +251,29 @@ def leafElem (tag text : Text) : Xml := .elem tag [] text []
 mutual
 /-- an item of a list value in `dict_to_etree`: a dict is recursed into, anything else is `str(e)`
     (so `None` is written as the text `None`; a list inside a list is outside the modelled universe) -/
-def itemToXml (k : Text) : Detail → Xml
+def itemToXml (et : EmptyTest) (k : Text) : Detail → Xml
   | .null => .elem k [] (T "None") []
   | .leaf t => .elem k [] t []
-  | .node kvs => .elem k [] [] (kvsToXml kvs)
+  | .node kvs => .elem k [] [] (kvsToXml et kvs)
   | .list _ => .elem k [] [] []
-def itemsToXml (k : Text) : List Detail → List Xml
+  | .scalar t _ => .elem k [] t []
+def itemsToXml (et : EmptyTest) (k : Text) : List Detail → List Xml
   | [] => []
-  | i :: is => itemToXml k i :: itemsToXml k is
+  | i :: is => itemToXml et k i :: itemsToXml et k is
 /-- one `k: v` entry of `dict_to_etree`: one element, or one element per item of a non-empty list -/
-def entryToXml (k : Text) : Detail → List Xml
+def entryToXml (et : EmptyTest) (k : Text) : Detail → List Xml
   | .null => [.elem k [] [] []]
   | .leaf t => [.elem k [] t []]
-  | .node kvs => [.elem k [] [] (kvsToXml kvs)]
+  | .node kvs => [.elem k [] [] (kvsToXml et kvs)]
   | .list items =>
     match items with
     | [] => [.elem k [] [] []]
-    | i :: is => itemsToXml k (i :: is)
-def kvsToXml : List (Text × Detail) → List Xml
+    | i :: is => itemsToXml et k (i :: is)
+  -- `elif not isinstance(v, Sized): text = str(v)`, reached unless the emptiness test already took it
+  | .scalar t fl => if et = .falsy ∧ fl = true then [.elem k [] [] []] else [.elem k [] t []]
+def kvsToXml (et : EmptyTest) : List (Text × Detail) → List Xml
   | [] => []
-  | (k, d) :: rest => entryToXml k d ++ kvsToXml rest
+  | (k, d) :: rest => entryToXml et k d ++ kvsToXml et rest
 end
 
 mutual
@@ -278,6 +301,7 @@ def normScalar : Detail → Detail
     | [] => .null
     | kv :: rest => .node (normKvs (kv :: rest))
   | .list _ => .null
+  | .scalar t _ => if t = [] then .null else .leaf t
 def normItem : Detail → Detail
   | .null => .leaf (T "None")
   | .leaf t => if t = [] then .null else .leaf t
@@ -286,6 +310,7 @@ def normItem : Detail → Detail
     | [] => .null
     | kv :: rest => .node (normKvs (kv :: rest))
   | .list _ => .null
+  | .scalar t _ => if t = [] then .null else .leaf t
 def normItems (k : Text) : List Detail → List (Text × Detail)
   | [] => []
   | i :: is => (k, normItem i) :: normItems k is
@@ -300,6 +325,7 @@ def normEntry (k : Text) : Detail → List (Text × Detail)
     match items with
     | [] => [(k, .null)]
     | i :: is => normItems k (i :: is)
+  | .scalar t _ => [(k, if t = [] then .null else .leaf t)]
 def normKvs : List (Text × Detail) → List (Text × Detail)
   | [] => []
   | (k, d) :: rest => normEntry k d ++ normKvs rest
@@ -315,6 +341,7 @@ def Detail.xmlSafe : Detail → Bool
     | [] => false
     | kv :: rest => kvsSafe (kv :: rest)
   | .list _ => false
+  | .scalar _ _ => false
 def kvsSafe : List (Text × Detail) → Bool
   | [] => true
   | (_, d) :: rest => d.xmlSafe && kvsSafe rest
@@ -328,6 +355,7 @@ def detailToDoc : Detail → Doc
   | .leaf t => .str t
   | .node kvs => .map (kvsToDoc kvs)
   | .list items => .list (itemsToDoc items)
+  | .scalar t fl => .scalar t fl
 def kvsToDoc : List (Text × Detail) → List (Text × Doc)
   | [] => []
   | (k, d) :: rest => (k, detailToDoc d) :: kvsToDoc rest
@@ -343,6 +371,7 @@ def docToDetail : Doc → Detail
   | .int _ => .null
   | .map kvs => .node (docKvs kvs)
   | .list xs => .list (docItems xs)
+  | .scalar t fl => .scalar t fl
 def docKvs : List (Text × Doc) → List (Text × Detail)
   | [] => []
   | (k, d) :: rest => (k, docToDetail d) :: docKvs rest
@@ -383,10 +412,10 @@ def tEnvelope11 := qn ns11 (T "Envelope")
 def tBody11 := qn ns11 (T "Body")
 
 /-- `_fault_to_parent_impl`: a non-empty dict becomes `<detail>`; `None` and `{}` nothing -/
-def detail11 : Option (List (Text × Detail)) → List Xml
+def detail11 (et : EmptyTest) : Option (List (Text × Detail)) → List Xml
   | none => []
   | some [] => []
-  | some (kv :: rest) => [.elem (T "detail") [] [] (kvsToXml (kv :: rest))]
+  | some (kv :: rest) => [.elem (T "detail") [] [] (kvsToXml et (kv :: rest))]
 
 /-- the extra children `gen_members_parent` appends for the declared members of the fault class -/
 def membersXml : List (Text × Text) → List Xml
@@ -398,7 +427,7 @@ def faultToXml11 (F : Facts09) (f : FaultV) : Xml :=
   .elem tFault11 [] []
     ([leafElem (T "faultcode") (F.env11Prefix ++ ':' :: f.code),
       leafElem (T "faultstring") f.str,
-      leafElem (T "faultactor") f.actor] ++ detail11 f.detail ++ membersXml f.members)
+      leafElem (T "faultactor") f.actor] ++ detail11 F.emptyTest f.detail ++ membersXml f.members)
 
 def envelope (ns : Text) (body : List Xml) : Xml :=
   .elem (qn ns (T "Envelope")) [] [] [.elem (qn ns (T "Body")) [] [] body]
@@ -460,10 +489,10 @@ def detail12 (F : Facts09) : Option (List (Text × Detail)) → Option (List Xml
   | none => some []
   | some kvs =>
     match F.soap12Detail with
-    | .children => some [.elem tDetail12 [] [] (kvsToXml kvs)]
+    | .children => some [.elem tDetail12 [] [] (kvsToXml F.emptyTest kvs)]
     | .singleRoot =>
       match kvs with
-      | [(k, d)] => some [.elem tDetail12 [] [] (entryToXml k d)]
+      | [(k, d)] => some [.elem tDetail12 [] [] (entryToXml F.emptyTest k d)]
       | _ => none
 
 /-- Soap12.fault_to_parent; `none` = the serialiser raises (TypeError / AssertionError) -/
@@ -898,6 +927,29 @@ def UserCode.erase : UserCode → UserCode
   | .plain s => .plain s.erase
   | .gen first later => .gen first.erase (later.map Raised.erase)
   | .hook site level r body => .hook site level r.erase body.erase
+
+/-! ## the constructors of the built-in error classes -/
+
+/-- the class attribute CODE of each built-in class -/
+def Builtin.baseCode : Builtin → Text
+  | .invalidCredentials => T "Client.InvalidCredentialsError"
+  | .requestTooLong => T "Client.RequestTooLong"
+  | .requestNotAllowed => T "Client.RequestNotAllowed"
+  | .argumentError => T "Client.ArgumentError"
+  | .invalidInput => T "Client.InvalidInput"
+  | .missingField => T "Client.InvalidInput"
+  | .validationError => T "Client.ValidationError"
+  | .internalError => T "Server"
+  | .resourceNotFound => T "Client.ResourceNotFound"
+  | .respawn => T "Client.ResourceNotFound"
+  | .resourceAlreadyExists => T "Client.ResourceAlreadyExists"
+
+/-- the fault code of an instance built by the constructor of built-in class `b` or of a generated subclass
+    that overrides CODE with `override` -/
+def ctorCode (F : Facts09) (b : Builtin) (override : Option Text) : Text :=
+  match override with
+  | some c => if b ∈ F.ctorUsesCode then c else b.baseCode
+  | none => b.baseCode
 
 /-! ## specification vocabulary (used by the property theorems) -/
 
